@@ -343,6 +343,33 @@ Definition c_map_mutations_gen (fx : bool) (ta : tree_arrays) (genotypes : list 
    (translator/facts_c20.py; false on the pinned commit, true once F2 is repaired) *)
 Definition c_map_mutations := c_map_mutations_gen c20_missing_through_hartigan.
 
+(* Proposed repair of finding F14 (fixes/C20-F14-reject-samples-below-no-root.diff, not
+   applied; the fact c20_rejects_unvisited_samples is re-extracted on every run and is false
+   on the current code): the Hartigan loop counts the sample nodes it visits and the function
+   fails with TSK_ERR_UNSUPPORTED_OPERATION when that is not num_samples (root_threshold > 1:
+   a sample under no root).  The check sits after the entry checks, so it is reached exactly
+   when the unguarded function returns a result. *)
+Definition ERR_UNSUPPORTED_OPERATION : Z := 4.
+
+Definition all_samples_visited (ta : tree_arrays) : res bool :=
+  let N := zlen (ta_flags ta) in
+  do nodes <- postorder_from_virtual_root ta;
+  do cnt <- fold_right (fun u acc =>
+              do c <- acc;
+              if u =? N then Ok c else
+              do f <- get (ta_flags ta) u;
+              Ok (if Z.odd (f / c20_tsk_node_is_sample) then c + 1 else c)) (Ok 0) nodes;
+  Ok (cnt =? zlen (ta_samples ta)).
+
+Definition guarded (core : tree_arrays -> list Z -> option Z -> res (Z * list trans))
+           (ta : tree_arrays) (genotypes : list Z) (anc : option Z) : res (Z * list trans) :=
+  if c20_rejects_unvisited_samples then
+    match core ta genotypes anc with
+    | Ok r => do b <- all_samples_visited ta; if b then Ok r else Err ERR_UNSUPPORTED_OPERATION
+    | e => e
+    end
+  else core ta genotypes anc.
+
 (* ------------------------------------------------------------------------- *)
 (* The rose tree the arrays represent                                          *)
 (* ------------------------------------------------------------------------- *)
@@ -405,17 +432,48 @@ Definition c_map_mutations_rose (ta : tree_arrays) (genotypes : list Z) (anc : o
 (* ------------------------------------------------------------------------- *)
 (* Tree.map_mutations (python/tskit/trees.py 2923-2948) + Tree_map_mutations   *)
 (* ------------------------------------------------------------------------- *)
-(* The alleles argument is modelled as [nal] pairwise distinct strings, string number i
-   being alleles[i]; [AStr i] with i outside [0, nal) is a string that is not in the list. *)
-Inductive anc_arg : Type := ANone | AInt (i : Z) | AStr (i : Z).
+(* The alleles argument is a list of strings; a string is modelled by a token (an integer),
+   equal tokens = equal strings (duplicates allowed).  [AStr s] is the ancestral_state
+   argument given as the string with token s. *)
+Inductive anc_arg : Type := ANone | AInt (i : Z) | AStr (s : Z).
 Inductive mm_err : Type := EValue | ELibrary | EIndex | EOverflow | EType.
 Inductive mm_obs : Type :=
-| MOk (ancestral_state : Z) (mutations : list (Z * Z * Z))   (* (node, derived_state, parent) *)
+| MOk (ancestral_state : Z) (mutations : list (Z * Z * Z))   (* allele string, (node, derived_state string, parent) *)
 | MErr (e : mm_err).
+
+(* ancestral_state resolution (trees.py 2925-2931): a str goes through alleles.index (first
+   occurrence; ValueError when absent), then the range check against len(alleles) *)
+Definition resolve_anc (anc : anc_arg) (alleles : list Z) : res (option Z) :=
+  match anc with
+  | ANone => Ok None
+  | AStr s => match index_of s alleles O with
+              | Some i => Ok (Some (Z.of_nat i))       (* always inside the range *)
+              | None => Err 0
+              end
+  | AInt i => if (i <? 0) || (i >=? zlen alleles) then Err 0 else Ok (Some i)
+  end.
+
+(* alleles[ancestral_state], [alleles[derived_state] ...] (2938-2947): IndexError when an
+   index is outside the list (the indices are never negative) *)
+Definition translate (alleles : list Z) (a : Z) (tr : list trans) : option (Z * list (Z * Z * Z)) :=
+  match get alleles a with
+  | Ok sa =>
+      option_map (fun l => (sa, l))
+      ((fix go (l : list trans) : option (list (Z * Z * Z)) :=
+         match l with
+         | [] => Some []
+         | m :: r => match get alleles (Z.of_N (tr_state m)), go r with
+                     | Ok sd, Some r' => Some ((tr_node m, sd, tr_parent m) :: r')
+                     | _, _ => None
+                     end
+         end) tr)
+
+  | _ => None
+  end.
 
 Definition py_map_mutations
     (core : tree_arrays -> list Z -> option Z -> res (Z * list trans))
-    (ta : tree_arrays) (genotypes : list Z) (anc : anc_arg) (nal : Z) : mm_obs :=
+    (ta : tree_arrays) (genotypes : list Z) (anc : anc_arg) (alleles : list Z) : mm_obs :=
   let bits := c20_py_genotype_bits in
   (* util.safe_np_int_cast(genotypes, np.int8): size 0 is let through *)
   if existsb (fun g => (g <? - 2 ^ (bits - 1)) || (g >? 2 ^ (bits - 1) - 1)) genotypes then MErr EOverflow else
@@ -424,14 +482,7 @@ Definition py_map_mutations
   | [] => MErr EValue
   | g0 :: gs =>
       let max_alleles := fold_left Z.max gs g0 in
-      (* ancestral_state: str -> alleles.index (ValueError), range check *)
-      let anc_idx : res (option Z) :=
-        match anc with
-        | ANone => Ok None
-        | AStr i => if (0 <=? i) && (i <? nal) then Ok (Some i) else Err 0
-        | AInt i => if (i <? 0) || (i >=? nal) then Err 0 else Ok (Some i)
-        end in
-      match anc_idx with
+      match resolve_anc anc alleles with
       | Ok a =>
           let max_alleles := match a with Some i => Z.max i max_alleles | None => max_alleles end in
           if max_alleles >=? c20_py_max_alleles then MErr EValue else
@@ -439,9 +490,10 @@ Definition py_map_mutations
           if negb (zlen genotypes =? zlen (ta_samples ta)) then MErr EValue else
           match core ta genotypes a with
           | Ok (a, tr) =>
-              (* alleles[ancestral_state], alleles[derived_state] : IndexError *)
-              if (a >=? nal) || existsb (fun m => Z.of_N (tr_state m) >=? nal) tr then MErr EIndex
-              else MOk a (map (fun m => (tr_node m, Z.of_N (tr_state m), tr_parent m)) tr)
+              match translate alleles a tr with
+              | Some (sa, muts) => MOk sa muts
+              | None => MErr EIndex
+              end
           | Err _ => MErr ELibrary         (* handle_library_error -> tskit.LibraryError *)
           | OOB => MErr EType              (* never observed: reported as a disagreement *)
           | Fuel => MErr EType
